@@ -35,12 +35,16 @@ open LoomVerif
 #print axioms Park.unpark_then_park_never_blocks
 #print axioms Park.unpark_op_then_park_never_blocks
 #print axioms Park.unpark_keeps_lock_waiter_blocked
-#print axioms Park.unpark_raises_causality_at_once
+#print axioms Park.unpark_orders_nothing_until_park
+#print axioms Hb_spelled_out
+#print axioms Park.unpark_happens_before_park
 #print axioms Release.keeps_token
 #print axioms Park.release_keeps_token
 #print axioms Condvar.notify_one_fifo
 #print axioms Condvar.notify_all
-#print axioms Condvar.wait_enqueues_releases_parks
+#print axioms Condvar.wake_table
+#print axioms Condvar.unpark_is_no_notification
+#print axioms Condvar.wait_enqueues_releases_blocks
 #print axioms Condvar.reacquires
 #print axioms Join.after_exit
 #print axioms EpiRun_spelled_out
